@@ -172,6 +172,11 @@ def run_property(modname, tier, seed, jobs=None):
         order = sorted(tasks, key=lambda t: -t.get("weight", 1))
         for kind, res in pool.imap_unordered(_dispatch, [("sym", t) for t in order]):
             sym_results.append(res)
+            if os.environ.get("VERIF_DEBUG"):
+                st = res["stats"]
+                print(f"  .. {res['task']['harness']} {json.dumps(res['task']['params'], default=str)[:90]} paths={len(res['paths'])} "
+                      f"q={st['queries']} solver={st['solver_s']:.1f}s wall={res['wall_s']:.1f}s exh={res['exhaustive']} "
+                      f"inc={st['inconclusive']} sat={st['sat']} err={'Y' if res['error'] else '-'}", flush=True)
         # ---- concrete jobs: candidate replays + fidelity replays
         conc_jobs = []
         fid_budget = getattr(mod, "FIDELITY_PER_HARNESS", 3 if tier == "quick" else 8)
